@@ -259,7 +259,8 @@ fn judge(ctx: &mut Ctx, rng: &mut Rng64, c: &Case) -> Option<Verdict> {
             ctx.violation(format!("accepted|{}|{lk}", c.strategy),
                 "a report built by a malicious strategy was accepted at a parameter that queries an affected candidate (4/4 under independent verification keys)", wit);
         } else {
-            ctx.count("soundness_flukes");
+            // Inner levels use Field64, the leaf level Field255: a single acceptance is not a plausible fluke.
+            ctx.sporadic(64, format!("{}|{}|{lk}", if invalid { "invalid-output" } else { "accepted" }, c.strategy), wit);
         }
     }
     Some(v)
